@@ -538,6 +538,10 @@ fn measure_family(fam: usize, n: usize) -> (usize, usize, Usage, f64, &'static s
         best = best.min(thread_cpu_time() - t0);
         usage = u;
         class = c;
+        if best > 1.0 {
+            // clock noise is irrelevant at this scale
+            break;
+        }
     }
     (n, x.len(), usage, best, class)
 }
@@ -557,7 +561,7 @@ fn run_family(tier: Tier, fam: usize) -> Outcome {
     let (n8, len8, u8_, mut t8, c8) = rows[2];
     // allocation work linear in the input (deterministic)
     let grow = |a: u64, b: u64| (b as f64 + 65536.0) / (a as f64 + 65536.0);
-    let mut summary = |t1: f64, t8: f64| {
+    let summary = |t1: f64, t8: f64| {
         format!(
             "n={n1}: {len1} B in, peak {} B, allocated {} B in {} requests, {:.1} ms ({c1}); n={n8}: {len8} B in, peak {} B, allocated {} B in {} requests, {:.1} ms ({c8})",
             u1.peak, u1.total, u1.allocs, t1 * 1e3, u8_.peak, u8_.total, u8_.allocs, t8 * 1e3
@@ -593,11 +597,25 @@ fn family_case_json(fam: u64) -> Value {
     json!({"family": fam, "what": FAMILIES[fam as usize]})
 }
 
+fn decl_table() -> &'static Vec<Decl> {
+    static T: std::sync::OnceLock<Vec<Decl>> = std::sync::OnceLock::new();
+    T.get_or_init(decl_cases)
+}
+
+fn decl_case_json(i: u64) -> Value {
+    serde_json::to_value(&decl_table()[i as usize]).unwrap_or(Value::Null)
+}
+
 pub fn worker(tier: Tier, space: &str, start: u64, end: u64) -> Option<Value> {
-    if space != "repetition" {
-        return None;
+    match space {
+        "repetition" => Some(worker::child_run(start, end, family_case_json, |i| run_family(tier, i as usize))),
+        // an absurd allocation request aborts the process: worker processes turn that into a
+        // finding attributed to the single case
+        "declared_sizes" => Some(worker::child_run(start, end, decl_case_json, |i| run_decl(&decl_table()[i as usize]))),
+        // a library that accepts a triple beyond the ceiling runs it: minutes and gigabytes
+        "argon2_ceiling" => Some(worker::child_run(start, end, |i| json!(i), |i| run_argon2(tier, i as u8))),
+        _ => None,
     }
-    Some(worker::child_run(start, end, family_case_json, |i| run_family(tier, i as usize)))
 }
 
 // ---------------------------------------------------------------------------------------------
@@ -874,8 +892,9 @@ fn run_argon2(tier: Tier, t: u8) -> Outcome {
     let mut o = Outcome::ok("");
     let (mut refused, mut executed, mut skipped) = (0u64, 0u64, 0u64);
     let t_is_edge = ARGON_EDGE.contains(&t);
-    for p in 0..=255u8 {
-        for m in 0..=255u8 {
+    // cheapest first: memory exponent ascending, then lanes
+    for m in 0..=255u8 {
+        for p in 0..=255u8 {
             if tier == Tier::Quick {
                 let (pe, me) = (ARGON_EDGE.contains(&p), ARGON_EDGE.contains(&m));
                 let keep = (pe && me) || (t_is_edge && (pe || me));
@@ -888,6 +907,11 @@ fn run_argon2(tier: Tier, t: u8) -> Outcome {
                 let (r, u) = measure(|| s2k.derive_key(b"password", 32));
                 if r.is_ok() {
                     o.push("C19:argon2:parameters-beyond-ceiling-accepted", format!("Argon2 t={t} p={p} m=2^{m} KiB: derive_key ran to completion"));
+                    // the remaining triples of this case would be executed at full cost by a
+                    // library that accepts them: one witness is enough
+                    o.evals = refused + executed + 1;
+                    o.class = "beyond-ceiling-accepted".into();
+                    return o;
                 } else if u.peak > 64 * 1024 {
                     o.push("C19:argon2:refusal-not-cheap", format!("Argon2 t={t} p={p} m=2^{m} KiB: refused, but only after allocating {} B", u.peak));
                 }
@@ -944,17 +968,11 @@ fn run_iterated(c: &Iter) -> Outcome {
 
 pub fn check(ctx: &Ctx) {
     let tier = ctx.tier;
-    let cases = decl_cases();
-    ctx.run_space(
-        "declared_sizes",
-        true,
-        &format!(
-            "{} seed packets (every packet type / version the library and the models produce): EVERY length-like field found by the reference field map (MPI bit counts, curve OID length, v6 key material length, subpacket area lengths, subpacket lengths, salt / fingerprint / S2K parameter / ESK / file name / user attribute subpacket lengths) set to each value of a ladder reaching 2^32-1 (1-octet: 7F 80 FE FF; 2-octet: 7FFF 8000 FFF8 FFFF; 4-octet and variable-length forms: 2^16 2^20 2^24 2^31-1 2^31 2^32-1), and the packet header in every form declaring 2^16..2^32-1 (new 5-octet, legacy 4-octet, legacy indeterminate, partial first chunk 2^9..2^30) over the unchanged short body; parsed through PacketParser and the typed entry point for the tag; counting allocator: peak and largest single request <= peak of the unmodified artefact + 24 KiB + 4 x input",
-            decl_seeds().len()
-        ),
-        cases.into_par_iter(),
-        run_decl,
+    let decl_rule = format!(
+        "{} seed packets (every packet type / version the library and the models produce): EVERY length-like field found by the reference field map (MPI bit counts, curve OID length, v6 key material length, subpacket area lengths, subpacket lengths, salt / fingerprint / S2K parameter / ESK / file name / user attribute subpacket lengths) set to each value of a ladder reaching 2^32-1 (1-octet: 7F 80 FE FF; 2-octet: 7FFF 8000 FFF8 FFFF; 4-octet and variable-length forms: 2^16 2^20 2^24 2^31-1 2^31 2^32-1), and the packet header in every form declaring 2^16..2^32-1 (new 5-octet, legacy 4-octet, legacy indeterminate, partial first chunk 2^9..2^30) over the unchanged short body; parsed through PacketParser and the typed entry point for the tag; counting allocator: peak and largest single request <= peak of the unmodified artefact + 24 KiB + 4 x input; run in worker processes (an allocation request that aborts the process is attributed to its case)",
+        decl_seeds().len()
     );
+    worker::run_sharded(ctx, "declared_sizes", true, &decl_rule, decl_table().len() as u64, 250, Duration::from_secs(tier.pick(120, 600)), &decl_case_json);
     worker::run_sharded(
         ctx,
         "repetition",
@@ -962,7 +980,7 @@ pub fn check(ctx: &Ctx) {
         "21 repetition families (markers, padding, signatures, user ids, prefixed / one-pass signatures around a literal, certificates with n user ids / certifications / subkeys, n certificates, armor header lines / leading text (slice source and 8 KiB-refill source) / blank lines / body lines, armored certificate with n headers, cleartext dash-escaped lines, subpackets in one area, user attribute packets), each at n, 2n, 8n (n = 25000 quick / 100000 thorough; signature-verifying families 1000..25000): allocation work (bytes, requests; deterministic) within x2.6 / x11, CPU time (best of 3, re-measured before it is believed) at 8n within x24 of n (linear x8, quadratic x64), peak <= 4 MiB + 96 x input; each family in its own watchdogged process (stack overflow / hang = finding)",
         FAMILIES.len() as u64,
         1,
-        Duration::from_secs(tier.pick(300, 1200)),
+        Duration::from_secs(tier.pick(120, 1200)),
         &family_case_json,
     );
     ctx.run_space(
@@ -972,13 +990,7 @@ pub fn check(ctx: &Ctx) {
         stream_cases(tier).into_par_iter(),
         |c| run_stream(tier, c),
     );
-    ctx.run_space(
-        "argon2_ceiling",
-        true,
-        "Argon2 parameter triples (t, p, encoded m) through StringToKey::derive_key - thorough: ALL 2^24; quick: every value 0..255 of each octet against the 12 x 12 grid of edge values {0,1,2,4,16,21,22,31,32,33,128,255} of the other two (~100000 triples): every triple beyond the documented ceiling (t > 32 or p > 32 or m > 2^21 KiB) must be refused with < 64 KiB allocated; triples inside the ceiling are executed where cheap (m <= 2^9 KiB, t <= 3, p <= 4): verdict = RFC 9106 legality, peak <= declared m + 256 KiB; evaluations = triples executed or refused",
-        (0..=255u8).into_par_iter(),
-        |t| run_argon2(tier, *t),
-    );
+    worker::run_sharded(ctx, "argon2_ceiling", true, "Argon2 parameter triples (t, p, encoded m) through StringToKey::derive_key - thorough: ALL 2^24; quick: every value 0..255 of each octet against the 12 x 12 grid of edge values {0,1,2,4,16,21,22,31,32,33,128,255} of the other two (~100000 triples): every triple beyond the documented ceiling (t > 32 or p > 32 or m > 2^21 KiB) must be refused with < 64 KiB allocated; triples inside the ceiling are executed where cheap (m <= 2^9 KiB, t <= 3, p <= 4): verdict = RFC 9106 legality, peak <= declared m + 256 KiB; evaluations = triples executed or refused", 256, tier.pick(8, 4), Duration::from_secs(tier.pick(90, 600)), &|i| json!(i));
     let hashes: Vec<u8> = tier.pick(vec![2, 8], vec![1, 2, 3, 8, 9, 10, 11, 12, 14]);
     let iters: Vec<Iter> = (0..=255u8).flat_map(|count| hashes.iter().flat_map(move |h| [16usize, 32].into_iter().map(move |key_size| Iter { count, hash: *h, key_size }))).filter(|c| tier == Tier::Thorough || c.key_size == 32 || c.count % 16 == 15).collect();
     ctx.run_space(
@@ -1010,7 +1022,7 @@ pub fn replay(space: &str, case: &Value) -> Option<Outcome> {
             Some(run_family(Tier::Quick, fam))
         }
         "streaming" => replay_as::<Stream>(case, |c| run_stream(Tier::Quick, c)),
-        "argon2_ceiling" => replay_as::<u8>(case, |t| run_argon2(Tier::Thorough, *t)),
+        "argon2_ceiling" => Some(run_argon2(Tier::Thorough, case.as_u64()? as u8)),
         "iterated_s2k" => replay_as::<Iter>(case, run_iterated),
         _ => None,
     }
